@@ -869,6 +869,8 @@ func (ex *Exec) execLoop(fr *Frame, loops map[*ssa.BasicBlock]*loopInfo, li *loo
 				}
 				g := ex.evalBool(env, inv.E)
 				ex.oblige(fr, e.st, "loop", lname+".preserve:"+inv.Label, pos, inv.Src, g)
+				// later invariants of this loop are proved under the earlier ones (assert, then assume)
+				ex.assume(e.st, g)
 			}
 			{
 				saved := map[*ssa.Phi]Val{}
